@@ -102,6 +102,11 @@ func c06Script(client, n int) []scriptOp {
 	var out []scriptOp
 	for i := 0; i < n; i++ {
 		u := fmt.Sprintf("u%d_%d", client, i)
+		if client == 3 {
+			// HyperLogLog family: two single-writer keys (they stay in the 32-entry write-back cache)
+			out = append(out, scriptOp{Key: fmt.Sprintf("P%d%c", client, 'a'+byte(i%2)), Type: "hll", Cmd: "pfadd", Args: []string{u}, Elem: u})
+			continue
+		}
 		switch client % 3 {
 		case 0:
 			if i%2 == 0 {
@@ -139,8 +144,8 @@ func checkAgainstScript(d *Dump, scripts [][]scriptOp) (string, string) {
 	for ci := range scripts {
 		for i := range scripts[ci] {
 			so := &scripts[ci][i]
-			if so.op == nil {
-				continue // never sent
+			if so.op == nil || so.Type == "hll" {
+				continue // never sent / judged by checkHLL
 			}
 			k := keys[so.Key]
 			if k == nil {
@@ -455,6 +460,7 @@ func (x *c06Exec) client(ci int, wg *sync.WaitGroup) {
 	defer c.Close()
 	script := x.scripts[ci]
 	notSent := 0
+	unknownHLL := 0
 	for i := 0; i < len(script); {
 		if atomic.LoadInt32(&x.stop) != 0 {
 			return
@@ -480,6 +486,12 @@ func (x *c06Exec) client(ci int, wg *sync.WaitGroup) {
 		}
 		if len(x.cl.Nodes) == 1 && op.IOErr {
 			return // the only node died
+		}
+		if so.Type == "hll" {
+			// the HLL oracle enumerates the subsets of unknown-outcome elements: keep them few
+			if unknownHLL++; unknownHLL >= 3 {
+				return
+			}
 		}
 		time.Sleep(time.Duration(40+rng.Intn(80)) * time.Millisecond)
 	}
@@ -536,7 +548,7 @@ func runC06Case(c *vc.Ctx, cs *C06Case, attempt int) (out c06Outcome) {
 	defer cl.Close()
 	cl.SettleAbortOnDead = true
 	x := &c06Exec{c: c, cs: cs, cl: cl, clock: NewClock(), hist: &History{}}
-	nClients := 3
+	nClients := 4
 	for ci := 0; ci < nClients; ci++ {
 		x.scripts = append(x.scripts, c06Script(ci, cs.Writes))
 	}
@@ -745,7 +757,7 @@ loop:
 	}
 	dumps := make([]*Dump, len(cl.Nodes))
 	for i, n := range cl.Nodes {
-		d, err := n.Dump()
+		d, err := n.Dump(x.hllKeys()...)
 		if err != nil {
 			out.inconclusive = "dump: " + err.Error()
 			return
@@ -779,8 +791,19 @@ loop:
 		if string(b) != string(ref) {
 			diff := diffDumps(dumps[vi], dumps[i])
 			dsig := "replica-diverges-after-restart"
+			onlyPF := len(diff) > 0
+			for _, df := range diff {
+				if df["type"] != "pfcount" {
+					onlyPF = false
+				}
+			}
+			if onlyPF {
+				dsig += "/pfadd" // only HyperLogLog cardinalities differ
+			}
 			dextra := map[string]interface{}{"first_differences": diff}
-			if cs.Opts.Engine == "pebble" {
+			// attributed to the pebble checkpoint leak only when the restarted node also shows a
+			// double apply of a non-idempotent write (the leak's symptom), never for missing data
+			if cls, _ := checkAgainstScript(dumps[vi], x.scripts); cs.Opts.Engine == "pebble" && cls == "twice" {
 				if slowest, ev := cl.CheckpointEvidence(x.victim); slowest >= 20*time.Millisecond {
 					dsig = "pebble-checkpoint-leaks-later-writes/replica-divergence"
 					dextra["checkpoint_evidence"] = ev
@@ -789,6 +812,18 @@ loop:
 			x.violation(dsig, fmt.Sprintf("case %d (%s %s k=%d, %s): restarted node %d and node %d differ after settle: %v", cs.Index, cs.Opts.Engine, cs.tag(), cs.K, cs.VictimRole, x.victim.ID, cl.Nodes[i].ID, firstOr(diff)), dextra)
 			return
 		}
+	}
+	// One voter: processReady hands committed entries to the apply loop (which
+	// answers the client) before persistRaftState writes them to the WAL. Every
+	// client is sequential, so at most its newest acknowledged write can be in
+	// that window. Attributed to that window only when the crash is known to be
+	// inside it (failpoint line says the raft loop was between publish and
+	// persist) or its instant is unknown (SIGKILL from outside during load).
+	inWindow := (cs.Kind == "failpoint" && fired && (firedInWindow || ackBeforePersistWindow[cs.Point])) || externalKilledUnderLoad
+	// HyperLogLog keys: PFCOUNT against reference keys filled with the admissible element sets
+	if why := x.checkHLL(dumps[vi], single && inWindow, fired); why != "" {
+		out.inconclusive = why
+		return
 	}
 	class, detail := checkAgainstScript(dumps[vi], x.scripts)
 	if class == "" {
@@ -800,13 +835,6 @@ loop:
 	case "missing":
 		sig = "acked-write-missing/" + cs.tag()
 		maxLost, suffix := lostPerClient(dumps[vi], x.scripts)
-		// One voter: processReady hands committed entries to the apply loop (which
-		// answers the client) before persistRaftState writes them to the WAL. Every
-		// client is sequential, so at most its newest acknowledged write can be in
-		// that window. Attributed to that window only when the crash is known to be
-		// inside it (failpoint line says the raft loop was between publish and
-		// persist) or its instant is unknown (SIGKILL from outside during load).
-		inWindow := (cs.Kind == "failpoint" && fired && (firedInWindow || ackBeforePersistWindow[cs.Point])) || externalKilledUnderLoad
 		if single && suffix && maxLost <= 1 && inWindow {
 			sig = "ack-before-persist/single-voter"
 			detail += fmt.Sprintf(" [single voter; for every client only its newest acknowledged write is lost; raft loop between publish and WAL persist at the crash: failpoint-window=%v external-kill-under-load=%v]", firedInWindow || ackBeforePersistWindow[cs.Point], externalKilledUnderLoad)
@@ -828,4 +856,131 @@ loop:
 	extra["detail"] = detail
 	x.violation(sig, fmt.Sprintf("case %d (%s %s rockswal=%v, %s k=%d delay=%dms fired=%v): after restart on the same directory: %s", cs.Index, cs.Config, cs.Opts.Engine, cs.Opts.UseRocksWAL, cs.tag(), cs.K, cs.DelayMs, fired, detail), extra)
 	return
+}
+
+func (x *c06Exec) hllKeys() []string {
+	seen := map[string]bool{}
+	var out []string
+	for ci := range x.scripts {
+		for i := range x.scripts[ci] {
+			so := &x.scripts[ci][i]
+			if so.Type == "hll" && !seen[so.Key] {
+				seen[so.Key] = true
+				out = append(out, so.Key)
+			}
+		}
+	}
+	sort.Strings(out)
+	return out
+}
+
+// checkHLL judges the HyperLogLog keys. HLL estimates are not exact, so the
+// count served after the restart is compared with the count the same
+// implementation gives for a reference key that is filled, after the restart,
+// with exactly an admissible element set: all acknowledged elements plus any
+// subset of the (at most 3) elements of unknown outcome. With one voter and a
+// crash inside the publish->persist window the newest acknowledged element may
+// be missing as well (known finding, reported under its own signature).
+// Returns a reason when no verdict could be reached.
+func (x *c06Exec) checkHLL(d *Dump, newestMayBeLost bool, fired bool) (inconclusive string) {
+	cs := x.cs
+	keys := x.hllKeys()
+	if len(keys) == 0 {
+		return ""
+	}
+	leader := x.cl.Leader()
+	if leader < 0 {
+		return "hll reference: no leader"
+	}
+	c := NewClient(90, x.cl, x.clock, &History{}, 9*time.Second)
+	defer c.Close()
+	L := x.cl.Nodes[leader].ID
+	refN := 0
+	countOf := func(elems []string) (int64, string) {
+		refN++
+		ref := fmt.Sprintf("ZR%d", refN)
+		for i := 0; i < len(elems); i += 50 {
+			op := c.Do(L, ref, "pfadd", elems[i:min(i+50, len(elems))]...)
+			if op == nil || op.Status != "ok" {
+				return 0, fmt.Sprintf("hll reference write failed: %v", op)
+			}
+		}
+		op := c.Do(L, ref, "pfcount")
+		if op == nil || op.Status != "ok" {
+			return 0, fmt.Sprintf("hll reference read failed: %v", op)
+		}
+		n, _ := op.Reply.(int64)
+		return n, ""
+	}
+	for _, k := range keys {
+		var acked, unknown []string
+		for ci := range x.scripts {
+			for i := range x.scripts[ci] {
+				so := &x.scripts[ci][i]
+				if so.Key != k || so.op == nil {
+					continue
+				}
+				if so.op.Status == "ok" {
+					acked = append(acked, so.Elem)
+				} else {
+					unknown = append(unknown, so.Elem)
+				}
+			}
+		}
+		got, present := d.PF[k]
+		if !present {
+			return "hll: dump has no PFCOUNT for " + k
+		}
+		admissible := map[int64]bool{}
+		excused := map[int64]bool{} // counts that additionally need "newest acknowledged element lost"
+		var lo, hi int64 = 1 << 62, -1
+		for mask := 0; mask < 1<<uint(len(unknown)); mask++ {
+			set := append([]string(nil), acked...)
+			for b := range unknown {
+				if mask&(1<<uint(b)) != 0 {
+					set = append(set, unknown[b])
+				}
+			}
+			n, why := countOf(set)
+			if why != "" {
+				return why
+			}
+			admissible[n] = true
+			lo, hi = min(lo, n), max(hi, n)
+			if newestMayBeLost && len(acked) > 0 {
+				set2 := append([]string(nil), acked[:len(acked)-1]...)
+				set2 = append(set2, set[len(acked):]...)
+				n2, why := countOf(set2)
+				if why != "" {
+					return why
+				}
+				excused[n2] = true
+			}
+		}
+		x.c.Ev.Count("hll_keys_compared", 1)
+		if admissible[got] {
+			continue
+		}
+		detail := fmt.Sprintf("PFCOUNT %s = %d after the restart; %d acknowledged PFADDs (+ any of %d with unknown outcome) give %v on reference keys of the same server", k, got, len(acked), len(unknown), keysOfCounts(admissible))
+		if excused[got] {
+			x.violation("ack-before-persist/single-voter", fmt.Sprintf("case %d (%s %s, %s k=%d): %s [single voter; matches the count without the newest acknowledged element; crash in the publish->WAL window]", cs.Index, cs.Config, cs.Opts.Engine, cs.tag(), cs.K, detail), map[string]interface{}{"detail": detail})
+			continue
+		}
+		sig := "acked-write-missing/" + cs.tag() + "/pfadd"
+		if got > hi {
+			sig = "unwritten-value-present/pfadd"
+		}
+		x.violation(sig, fmt.Sprintf("case %d (%s %s rockswal=%v, %s k=%d delay=%dms fired=%v): %s", cs.Index, cs.Config, cs.Opts.Engine, cs.Opts.UseRocksWAL, cs.tag(), cs.K, cs.DelayMs, fired, detail),
+			map[string]interface{}{"detail": detail, "key": k, "acked_elements": len(acked), "unknown_elements": unknown})
+	}
+	return ""
+}
+
+func keysOfCounts(m map[int64]bool) []int64 {
+	var out []int64
+	for k := range m {
+		out = append(out, k)
+	}
+	sort.Slice(out, func(i, j int) bool { return out[i] < out[j] })
+	return out
 }
